@@ -478,6 +478,9 @@ def export_markdown(stats, verbose=0, category_filter=None, merchant_filter=None
     transfers_out = stats.get('transfers_out', 0)
     transfers_net = stats.get('transfers_net', 0)
 
+    # Gross spending (positive merchants only) for category percentages
+    gross_spending = sum(d['total'] for d in by_merchant.values() if d['total'] > 0)
+
     lines = ['# Financial Report\n']
 
     # Cash Flow Summary
